@@ -645,7 +645,10 @@ class Recorder:
         return ev
 
 
-def build_impl(case: dict, rec: Recorder):
+APP_RULES = [("UDP", "DNS"), ("TCP", "DNS"), ("TCP", "POSTGRES_SERVER"), ("UDP", "POSTGRES_SERVER")]
+
+
+def build_impl(case: dict, rec: Recorder, app_acl: bool = False):
     from primaite.simulator.network.container import Network
     from primaite.simulator.network.hardware.nodes.host.computer import Computer
     from primaite.simulator.network.hardware.nodes.network.router import Router
@@ -709,6 +712,10 @@ def build_impl(case: dict, rec: Recorder):
                 cfg["default_route"] = {"next_hop_ip_address": nd["default"]}
             if nd.get("flag"):
                 cfg["acl"] = {1: {"action": "PERMIT", "protocol": "UDP", "src_port": "NTP", "dst_port": "NTP"}}
+            if app_acl:
+                cfg.setdefault("acl", {})
+                for k, (proto, port) in enumerate(APP_RULES):
+                    cfg["acl"][2 + k] = {"action": "PERMIT", "protocol": proto, "src_port": port, "dst_port": port}
             o = Router.from_config(config=cfg)
         o.power_on()
         net.add_node(o)
@@ -844,6 +851,60 @@ def run_impl(case: dict) -> Tuple[List[str], List[dict]]:
     return answers, records
 
 
+def run_apps(case: dict) -> List[dict]:
+    """R-app (implementation only; the property's oracles, no model): real application exchanges — DNS look-ups and database
+    connect + query — from every other host to the first host across the generated routers (plain routers, every one
+    permitting the applications' ports), cold caches.  Records have the shape `oracle` reads."""
+    from ipaddress import IPv4Address
+    rec = Recorder()
+    rec.install()
+    records: List[dict] = []
+    try:
+        net, objs, ifaces = build_impl(case, rec, app_acl=True)
+        owners: Dict[str, int] = {}
+        for n, lst in enumerate(ifaces):
+            for ifc in lst:
+                if hasattr(ifc, "ip_address"):
+                    owners.setdefault(str(ifc.ip_address), n)
+        hosts = [n for n, nd in enumerate(case["nodes"]) if nd["kind"] == "host"]
+        srv = hosts[0]
+        sip = IPv4Address(case["nodes"][srv]["ip"])
+        from primaite.simulator.system.applications.database_client import DatabaseClient
+        from primaite.simulator.system.services.database.database_service import DatabaseService
+        from primaite.simulator.system.services.dns.dns_server import DNSServer
+        objs[srv].software_manager.install(DNSServer)
+        objs[srv].software_manager.install(DatabaseService)
+        objs[srv].software_manager.software["dns-server"].dns_register("verif.example", sip)
+        rec.take()
+        for cl in hosts[1:4]:
+            for kind in ("dns", "db", "dns-again"):
+                res = "0"
+                try:
+                    if kind.startswith("dns"):
+                        dc = objs[cl].software_manager.software["dns-client"]
+                        dc.dns_server = sip
+                        if kind == "dns":
+                            dc.dns_cache.clear()
+                        res = "1" if dc.check_domain_exists("verif.example") else "0"
+                    else:
+                        objs[cl].software_manager.install(DatabaseClient)
+                        app = objs[cl].software_manager.software["database-client"]
+                        app.run()
+                        app.configure(server_ip_address=sip)
+                        res = "1" if (app.connect() and app.query("SELECT")) else "0"
+                except Exception as e:
+                    if isinstance(e, RecursionError) or "recursion" in str(e).lower():
+                        res = "OOF"
+                    else:
+                        raise
+                records.append({"op": {"op": "app:" + kind, "src": cl, "dst": str(sip)}, "res": res, "raw": rec.take(), "owners": owners})
+                if res == "OOF":
+                    return records
+    finally:
+        rec.remove()
+    return records
+
+
 def arp_sound_oracle(case: dict, answers: List[str]) -> Optional[dict]:
     """Conclusion of theorem C08_arp_sound_preserved evaluated on the IMPLEMENTATION's final ARP caches: every entry ip -> mac
     names an interface that carries ip, or a router interface.  Only meaningful when the model's `goodstate` check holds."""
@@ -913,6 +974,8 @@ def oracle(case: dict, records: List[dict]) -> Optional[dict]:
             servers_ip = {nd["ip"] for nd in case["nodes"] if nd["kind"] == "host" and nd.get("flag")}
             if op["dst"] in servers_ip:
                 return {"kind": "permitted-exchange-failed", "op": k, "what": f"service request {op['src']} -> {op['dst']} got no reply on a consistent, fully-up, all-permitting topology"}
+        elif op["op"].startswith("app:") and case.get("consistent") and r["res"] != "1":
+            return {"kind": "permitted-exchange-failed", "op": k, "what": f"application exchange {op['op']} {op['src']} -> {op['dst']} failed on a consistent, fully-up topology whose routers permit it"}
         elif op["op"] == "ping" and case.get("consistent") and case.get("ping_permit", True) and not down and not off and r["res"] != "1":
             hosts_ip = {nd["ip"]: n for n, nd in enumerate(case["nodes"]) if nd["kind"] == "host"}
             if op["dst"] in hosts_ip:
